@@ -542,6 +542,113 @@ func (e *Engine) enumTableSplit(st *State, x *ssa.UnOp) []*State {
 	return outs
 }
 
+// zeroLit: the literal form of the zero value of t (integers, booleans, strings and structs of them).
+func zeroLit(t types.Type) *Lit {
+	switch u := t.Underlying().(type) {
+	case *types.Basic:
+		switch {
+		case u.Info()&types.IsBoolean != 0:
+			return &Lit{Const: constant.MakeBool(false), Type: t}
+		case u.Info()&types.IsInteger != 0:
+			return &Lit{Const: constant.MakeInt64(0), Type: t}
+		case u.Info()&types.IsString != 0:
+			return &Lit{Const: constant.MakeString(""), Type: t}
+		}
+	case *types.Struct:
+		out := &Lit{Type: t, Elems: make([]*Lit, u.NumFields())}
+		for i := range out.Elems {
+			out.Elems[i] = zeroLit(u.Field(i).Type())
+		}
+		return out
+	}
+	return nil
+}
+
+// rowTableSplit: `row := table[c]` for a package-level [256]struct literal: one state per distinct row among the
+// bytes still possible (the unlisted bytes share the zero row), with the byte narrowed to the bytes of that row, so
+// that row.ok, row.tt, row.state stay correlated with the byte.
+func (e *Engine) rowTableSplit(st *State, x *ssa.UnOp) []*State {
+	ia, ok := x.X.(*ssa.IndexAddr)
+	if !ok {
+		return nil
+	}
+	g, ok := ia.X.(*ssa.Global)
+	if !ok || g.Pkg == nil || !core.InModule(g.Pkg.Pkg) {
+		return nil
+	}
+	arr, ok := derefType(g.Type()).Underlying().(*types.Array)
+	if !ok || arr.Len() != 256 {
+		return nil
+	}
+	rowT, ok := arr.Elem().Underlying().(*types.Struct)
+	if !ok || rowT.NumFields() > 8 {
+		return nil
+	}
+	e.itabMu.Lock()
+	if e.rows256 == nil {
+		e.rows256 = map[*ssa.Global][]*Lit{}
+	}
+	rows, cached := e.rows256[g]
+	if !cached {
+		if pk := e.prog.ByPath[g.Pkg.Pkg.Path()]; pk != nil {
+			if l, err := evalGlobal(pk, g.Name()); err == nil && l != nil && len(l.Elems) <= 256 && l.Elems != nil {
+				zero := zeroLit(arr.Elem())
+				rows = make([]*Lit, 256)
+				good := zero != nil
+				for i := range rows {
+					rows[i] = zero
+					if i < len(l.Elems) && l.Elems[i] != nil {
+						r := &Lit{Type: arr.Elem(), Pos: l.Elems[i].Pos, Elems: make([]*Lit, rowT.NumFields())}
+						for f := range r.Elems {
+							if f < len(l.Elems[i].Elems) && l.Elems[i].Elems[f] != nil {
+								r.Elems[f] = l.Elems[i].Elems[f]
+							} else {
+								r.Elems[f] = zeroLit(rowT.Field(f).Type())
+							}
+						}
+						rows[i] = r
+					}
+				}
+				if !good {
+					rows = nil
+				}
+			}
+		}
+		e.rows256[g] = rows
+	}
+	e.itabMu.Unlock()
+	if rows == nil {
+		return nil
+	}
+	set := e.eval(st, ia.Index).byteSet()
+	groups := map[*Lit]ByteSet{}
+	var order []*Lit
+	for _, b := range set.members() {
+		r := rows[b]
+		if _, seen := groups[r]; !seen {
+			order = append(order, r)
+		}
+		groups[r] = groups[r].or(bsOf(b))
+	}
+	if len(order) == 0 || len(order) > 12 {
+		return nil
+	}
+	var outs []*State
+	for i, r := range order {
+		s := st
+		if i < len(order)-1 {
+			s = st.clone()
+		}
+		e.refineByteVal(s, ia.Index, groups[r])
+		if s.dead {
+			continue
+		}
+		s.setv(x, AbsVal{k: vLit, lit: r, field: -1})
+		outs = append(outs, s)
+	}
+	return outs
+}
+
 // splitEnumTables: after a branch narrowed the byte that indexes a per-byte table of an enumerated type
 // (`if t := punctuation[c]; t != ErrorToken`) to a few candidates, one state per candidate keeps the table value
 // correlated with the byte (as enumTableSplit does when the candidates are few at the load already).
